@@ -253,10 +253,21 @@ func readBack(d builder.BuildDirectory, ids map[string]int) (*node, error) {
 	return out, nil
 }
 
-// faultyDir makes ReadDir fail on the directories the tree marks unreadable.
+// faultyDir injects file-system faults below the root of the upload: directories
+// the tree marks unreadable fail on ReadDir - or, in enterFaults mode and when no
+// declared output lies strictly below them (then both have the same observable
+// effect: error saved, directory left out), already when they are entered - and
+// Readlink fails for symlinks whose target is readlinkFailTarget.
 type faultyDir struct {
 	builder.UploadableDirectory
-	n *node
+	n    *node
+	at   string // location, "/"-joined
+	conf *faultConfig
+}
+
+type faultConfig struct {
+	enterFaults bool
+	parents     map[string]bool // proper prefixes of declared locations
 }
 
 func (d faultyDir) EnterUploadableDirectory(name path.Component) (builder.UploadableDirectory, error) {
@@ -268,11 +279,28 @@ func (d faultyDir) EnterUploadableDirectory(name path.Component) (builder.Upload
 	if d.n != nil && d.n.kind == 'd' {
 		cn = d.n.entries[name.String()]
 	}
-	return faultyDir{UploadableDirectory: child, n: cn}, nil
+	at := name.String()
+	if d.at != "" {
+		at = d.at + "/" + at
+	}
+	if cn != nil && cn.kind == 'd' && !cn.readable && d.conf.enterFaults && !d.conf.parents[at] {
+		child.Close()
+		return nil, syscall.EIO
+	}
+	return faultyDir{UploadableDirectory: child, n: cn, at: at, conf: d.conf}, nil
+}
+
+func (d faultyDir) Readlink(name path.Component) (path.Parser, error) {
+	if d.n != nil && d.n.kind == 'd' {
+		if cn := d.n.entries[name.String()]; cn != nil && cn.kind == 'l' && cn.target == readlinkFailTarget {
+			return nil, syscall.EIO
+		}
+	}
+	return d.UploadableDirectory.Readlink(name)
 }
 
 func (d faultyDir) ReadDir() ([]filesystem.FileInfo, error) {
-	if d.n != nil && d.n.kind == 'd' && !d.n.readable {
+	if d.n != nil && d.n.kind == 'd' && !d.n.readable && !(d.conf.enterFaults && d.at != "" && !d.conf.parents[d.at]) {
 		return nil, syscall.EIO
 	}
 	return d.UploadableDirectory.ReadDir()
